@@ -592,6 +592,20 @@ func (e *Env) evalCall(x *ECall) (TV, error) {
 			return TV{}, fmt.Errorf("str() of non-slice")
 		}
 		return TV{g.strOfBytes(e.st, v.t, v.ty), types.Typ[types.String]}, nil
+	case "as": // as(x, "*T"): the payload of interface x viewed as a T (meaningful when typeof(x) == T)
+		v, err := argv(0)
+		if err != nil {
+			return TV{}, err
+		}
+		s, ok := x.Args[1].(*EStr)
+		if !ok || !isIface(v.ty) {
+			return TV{}, fmt.Errorf("as(x, \"T\") needs an interface value and a type name string")
+		}
+		ty, err := g.c.parseType(s.V)
+		if err != nil {
+			return TV{}, err
+		}
+		return TV{g.unbox(app("i_val", v.t), ty), ty}, nil
 	case "foreign": // dynamic type is not one of the types this package's code names
 		v, err := argv(0)
 		if err != nil {
